@@ -90,6 +90,16 @@ class Partial(object):
         return "Partial(%r, %r)" % (self.func, self.kwargs)
 
 
+class Sentinel(object):
+    """value of a module-level `object()` (identity is all that matters)"""
+
+    def __init__(self, where):
+        self.where = where
+
+    def __repr__(self):
+        return "<sentinel %s>" % self.where
+
+
 class FuncRef(object):
     """Reference to a def/class/lambda, or an external (non-ural) callable by dotted name."""
 
@@ -776,6 +786,8 @@ class Repo(object):
                         raise Unknown("partial **kwargs")
                     kwargs[kw.arg] = ev(kw.value)
                 return Partial(tref, [ev(a) for a in node.args[1:]], kwargs, module)
+            if ref is None and f.id == "object" and not node.args and not node.keywords:
+                return Sentinel("%s:%d" % (module.name, node.lineno))
             if ref is None and f.id in PURE_BUILTINS:
                 args = [ev(a) for a in node.args]
                 if node.keywords:
